@@ -5,12 +5,12 @@ import G3D.Proofs.SortCycle
 import G3D.Proofs.Judge
 import G3D.Proofs.CtorQueries
 import G3D.Proofs.Euler5
-/-! # C09 — polygon / polyhedron construction is order-independent and canonical  (partial)
-    Proved: what a successful construction guarantees (vertices ⊆ input, coplanar, centre = mean of the distinct input;
-    polyhedron: every stored face oriented away from the centre, Euler's formula, centre = vertex mean, centre inside),
-    that the polygon constructor commutes with translations (rejections included).  Not proved: that the angular sort
-    of points in convex position yields the counter-clockwise cycle (kernel K6) — the decidable validity predicate is
-    evaluated by the Lean judge on every polygon the implementation constructs in the correspondence. -/
+/-! # C09 — polygon / polyhedron construction is order-independent and canonical  (full relative to a Valid reference body)
+    Polygon: whatever the order and repetitions of the input, distinct coplanar points in strictly convex position are accepted
+    and yield the Valid counter-clockwise cycle on exactly those points (kernel K6); -p, -(-p); translations.
+    Polyhedron: the faces of a Valid body in any order / start vertex / orientation are ACCEPTED (Euler's formula proved) and
+    stored as a Valid body with outward faces, the same vertices and membership = hull.  The decidable validity predicates are
+    additionally evaluated by the Lean judges on every object the implementation constructs in the correspondence. -/
 namespace G3D.Props.C09
 open G3D V3
 
